@@ -51,7 +51,7 @@ var props = map[string]*propSpec{
 		Level: "exploration",
 		Rule: "one run = configuration x 1-4 RPCs whose handlers execute a random permutation of SetHeader/SendHeader/Send/SetTrailer ending in a random status (17 codes, messages, details), random request metadata (outgoing context and/or per-RPC credentials, -bin values), random call options and caller Header/Recv/Trailer orders x schedule; " +
 			"non-trivial = at least one RPC ran to its handler's own return and was compared against the reference model; distinct = distinct schedule digests",
-		Families:       []famPlan{{Family: "meta", Weight: 3}, {Family: "meta", Weight: 1, Param: map[string]int{"nonutf8": 1}}},
+		Families:       []famPlan{{Family: "meta", Weight: 3}, {Family: "meta", Weight: 1, Param: map[string]int{"nonutf8": 1}}, {Family: "cancel", Weight: 1}},
 		QuickBudget:    50 * time.Second,
 		ThoroughBudget: 15 * time.Minute,
 	},
@@ -60,6 +60,14 @@ var props = map[string]*propSpec{
 		Rule: "per baseline (seeded configuration x workload of 1-5 RPCs in assorted phases x schedule) the fault-free run reports its N carrier frames; then each of 6 termination causes (channel Close, cancel / expiry of the opening context, Stop, GracefulStop+Stop, carrier failure) is injected at frame boundary k (thorough: every k in 1..N; quick: a stratified sample) and the run is driven to final quiescence (all timers fired); plus fully random placements; " +
 			"non-trivial = the tunnel ended while at least one RPC was in flight; distinct = distinct schedule digests",
 		Families:       []famPlan{{Family: "teardown", Weight: 3, Enum: true, EnumCauses: 6, EnumQuick: 10}, {Family: "teardown", Weight: 1}},
+		QuickBudget:    55 * time.Second,
+		ThoroughBudget: 20 * time.Minute,
+	},
+	"C07": {
+		Level: "fault_enumeration",
+		Rule: "per baseline (configuration x RPC of interest in a random phase + 0-3 bystanders x schedule) the fault-free run reports its N frames; the caller's context is then cancelled at every frame boundary k (thorough; quick: stratified sample), in a second variant with all delivery towards the caller held back afterwards, and deadlines are placed at virtual instants; the run is driven to final quiescence, then a fresh RPC is issued; " +
+			"non-trivial = the cancellation took effect while the RPC was in flight; distinct = distinct schedule digests",
+		Families:       []famPlan{{Family: "cancel", Weight: 3, Enum: true, EnumCauses: 3, EnumQuick: 10}, {Family: "cancel", Weight: 1}},
 		QuickBudget:    55 * time.Second,
 		ThoroughBudget: 20 * time.Minute,
 	},
@@ -74,7 +82,7 @@ var props = map[string]*propSpec{
 	"C13": {
 		Level:          "exploration",
 		Rule:           "every frame of every run is fed to the protocol monitor (appendix A of DESIGN.md); non-trivial = the run carried at least 20 frames; distinct = distinct schedule digests",
-		Families:       []famPlan{{Family: "msgflow", Weight: 1}},
+		Families:       []famPlan{{Family: "msgflow", Weight: 2}, {Family: "teardown", Weight: 1}, {Family: "meta", Weight: 1}},
 		QuickBudget:    50 * time.Second,
 		ThoroughBudget: 15 * time.Minute,
 	},
